@@ -1297,9 +1297,14 @@ class ClassicChannel(utils.EventEmitter):
             return await self.disconnection_result
 
     def abort(self) -> None:
-        if self.state == self.State.OPEN:
+        if self.state in (self.State.OPEN, self.State.WAIT_DISCONNECT):
             self._change_state(self.State.CLOSED)
             self.emit(self.EVENT_CLOSE)
+        # Release whoever is waiting for a disconnection response that will never come
+        if self.disconnection_result:
+            if not self.disconnection_result.done():
+                self.disconnection_result.set_result(None)
+            self.disconnection_result = None
 
     def send_configure_request(self) -> None:
         options: list[tuple[int, bytes]] = [
@@ -1734,6 +1739,9 @@ class LeCreditBasedChannel(utils.EventEmitter):
         if self.disconnection_result is not None:
             self.disconnection_result.set_result(None)
             self.disconnection_result = None
+        # Nothing more will be sent: release whoever is waiting in drain()
+        self.flush_output()
+        self.drained.set()
 
     def on_pdu(self, pdu: bytes) -> None:
         if self.sink is None:
